@@ -63,6 +63,10 @@ theorem facts_shared_writes_guarded : Spec.sharedWritesGuarded = true := by deci
     renderers keep no state between documents. -/
 theorem facts_no_path_writes : Spec.noPathWrites = true := by decide +kernel
 
+/-- Regenerated fact: the only sync / sync-atomic objects in goldmark's long-lived structs and package variables
+    are the three `sync.Once` guards (no cache behind a mutex, `sync.Map`, `sync.Pool` or atomic pointer). -/
+theorem facts_only_once_guards : Spec.onlyOnceGuards = true := by decide +kernel
+
 /-- non-vacuity (test): a history that includes the freezing first call -/
 example : (use (fun (c : Nat) (s : Nat) => c + s) (runHist (fun c s => c + s) ⟨5, none⟩ [1, 2, 3]) 10).2 = 15 := by
   decide
